@@ -1151,11 +1151,14 @@ def gen_sched(tier, rng, with_faults):
                 for sc in scheds:
                     for driver in (0, 1, 2):
                         evs = list(sc)
-                        # Pending between polls (async) / Interrupted anywhere (sync)
+                        # Pending between polls (async) / Interrupted anywhere (sync; for one async case in four)
+                        intr_fsm = rng.random() < 0.25
                         mixed = []
                         for e in evs:
                             if driver == 1 and rng.random() < 0.4:
                                 mixed.append((2, 0))
+                            if driver == 1 and intr_fsm and rng.random() < 0.15:
+                                mixed.append((1, 0))        # tokio does not retry Interrupted: it surfaces as Io(Interrupted)
                             if driver in (0, 2) and rng.random() < 0.2:
                                 mixed.append((1, 0))
                             mixed.append(e)
